@@ -80,6 +80,9 @@ func (x *Enc) havocAll(h Heap, reach Term) Heap {
 	// stated assumption of the contract (havoc_preserves): uncontracted callees do not write these struct types
 	if x.con != nil {
 		for _, k := range sortedKeys(x.keys) {
+			if x.noPreserve[k] {
+				continue // the contracted callee being applied stores to this key itself
+			}
 			for _, tn := range x.con.HavocPreserves {
 				if (strings.HasPrefix(k, "F:") || strings.HasPrefix(k, "P:")) && strings.Contains(k, tn+":") {
 					nh.m[k] = x.hget(h, k)
